@@ -115,6 +115,15 @@ def oracle(c, r, cases, res):
             return 'conforming document (focus %s) is rejected in strict mode: %s' % (c.get('focus'), sx.pretty(r.err)[1:5])
         if r.diags:
             return 'conforming document (focus %s) produces diagnostics: %s' % (c.get('focus'), [(d[1], d[3]) for d in r.diag_list()][:3])
+        # "every value readable from the model": the values that the model hands back when it is written are the values of the
+        # document, token by token (documents without IF_DATA and without reordered position-restricted items: those have known
+        # findings of their own under C02 / C01)
+        if 'IF_DATA' not in c['text'] and r.text1 is not None and not loadlib.reordered_blocks(r.node):
+            tin, tout = loadlib.scan_tokens(c['text']), loadlib.scan_tokens(r.text1.decode('utf-8', 'replace'))
+            if tin is not None and tout is not None:
+                d = loadlib.first_token_difference(tin, tout)
+                if d is not None:
+                    return 'conforming document (focus %s): a value is not read as it stands in the document: %s' % (c.get('focus'), d[1])
         return None
     dev = c['dev']
     exp = EXPECT[dev]
